@@ -5,7 +5,7 @@ From Coq Require Import Sorting.Permutation Sorting.Sorted.
 From AF Require Import Proofs.MemFileProof.
 From AF Require Import Lib.Bytes Lib.Path Lib.Ops Gen.Consts Model.MemFile Model.ByteFile Model.MemFs Model.WfOps Model.Posix
   Proofs.BytesLemmas Proofs.MemFsPath Proofs.MemFsBasics Proofs.MemFsWF Proofs.MemFsStep Proofs.MemFsRename
-  Proofs.MemFsInv Proofs.MemFsNoop Proofs.MemFsList.
+  Proofs.MemFsInv Proofs.MemFsNoop Proofs.MemFsList Proofs.MemFsBelow.
 Local Open Scope Z_scope.
 
 (* ---------- the relation ---------- *)
@@ -67,6 +67,47 @@ Proof.
     destruct x as [pm|d pm]; cbn in Hi; destruct Hi as [Hd _]; now rewrite Hd.
   - destruct (rel_none s t k R Hl) as [_ Hx]. now rewrite Hx.
 Qed.
+
+Lemma rel_is_file s t k : Rsim s t -> is_file_at s k = pis_file t k.
+Proof.
+  intros R. unfold is_file_at, kind_at, pis_file. destruct (lookup s k) as [r|] eqn:Hl.
+  - destruct (rel_node s t k r R Hl) as (n & x & Hn & _ & _ & Hx & Hi). rewrite Hn, Hx.
+    destruct x as [pm|d pm]; cbn in Hi; destruct Hi as [Hd _]; now rewrite Hd.
+  - destruct (rel_none s t k R Hl) as [_ Hx]. now rewrite Hx.
+Qed.
+
+Lemma existsb_keys' {A B} (g : str -> bool) (l1 : list (str * A)) (l2 : list (str * B)) :
+  (forall k, alist_get k l1 = None <-> alist_get k l2 = None) ->
+  existsb (fun kv => g (fst kv)) l1 = existsb (fun kv => g (fst kv)) l2.
+Proof.
+  intros Hk.
+  assert (Hx : forall {C D} (a : list (str * C)) (b : list (str * D)),
+     (forall k, alist_get k a = None <-> alist_get k b = None) ->
+     existsb (fun kv => g (fst kv)) a = true -> existsb (fun kv => g (fst kv)) b = true).
+  { intros C D a b Hab Ha. apply existsb_exists in Ha as ([k v] & Hin & Hg). cbn in Hg.
+    assert (Hka : alist_get k a <> None). { intros E. apply aget_none_keys in E. apply E. apply in_map_iff. now exists (k, v). }
+    destruct (alist_get k b) as [v'|] eqn:Eb; [|exfalso; apply Hka; now apply Hab].
+    apply existsb_exists. exists (k, v'). split; [now apply aget_in | exact Hg]. }
+  destruct (existsb (fun kv => g (fst kv)) l1) eqn:E1.
+  - symmetry. now apply (Hx _ _ l1 l2).
+  - destruct (existsb (fun kv => g (fst kv)) l2) eqn:E2; [|reflexivity].
+    rewrite (Hx _ _ l2 l1) in E1; [discriminate | intros k; symmetry; apply Hk | exact E2].
+Qed.
+
+(* "the name passes through a regular file" means the same on both sides *)
+Lemma rel_through s t k : Rsim s t -> through_file s k = pthrough_file t k.
+Proof.
+  intros R. unfold through_file, pthrough_file.
+  assert (E : forall l : list (str * nat), existsb (fun kv => below (fst kv) k && is_file_at s (fst kv)) l =
+                                           existsb (fun kv => pbelow (fst kv) k && pis_file t (fst kv)) l).
+  { induction l as [|kv l IH]; [reflexivity|]. cbn [existsb]. now rewrite IH, (rel_is_file s t _ R). }
+  rewrite E.
+  apply (existsb_keys' (fun a => pbelow a k && pis_file t a)). intros k'. fold (lookup s k') (plookup t k'). now rewrite (rs_tree _ _ R).
+Qed.
+
+(* the ordinary preconditions: the specification resolves the name(s) of the call *)
+Ltac resolve_ord R Hwf Hnt :=
+  pose proof (ord_not_through _ _ (rs_wf _ _ R) Hwf) as Hnt; cbv beta iota zeta in Hnt; rewrite ?(rel_through _ _ _ R) in Hnt.
 
 (* ---------- building the relation after a step ---------- *)
 Lemma heap_rel_kept s s' t t' : heap_rel s t -> attrs_kept s s' -> pinodes t' = pinodes t -> heap_rel s' t'.
@@ -199,12 +240,12 @@ Definition sim_raw (s : mst) (t : pfs) (o : op) : Prop :=
 
 (* ---------- Mkdir ---------- *)
 Lemma mkdir_eq s p perm :
-  WF s -> wf_op s (Mkdir p perm) = true -> lookup s (normalize_path p) = None ->
+  WF s -> wf_op_ord s (Mkdir p perm) = true -> lookup s (normalize_path p) = None ->
   let k := normalize_path p in let pm := Z.land perm chmod_bits in let item := length (mheap s) in
   exists q, lookup s (par k) = Some q /\
     m_mkdir s p perm = (upd_node (upd_node (put_new s k (mkdir_node k pm (mclock s))) q (set_kid k item)) item (with_mode (Z.lor pm mode_dir)), ROk).
 Proof.
-  intros W Hwf Hl k pm item. cbn [wf_op] in Hwf. apply andb_true_iff in Hwf as [Hn Hwf]. fold k in Hwf, Hl. rewrite Hl in Hwf.
+  intros W Hwf Hl k pm item. cbn [wf_op_ord] in Hwf. apply andb_true_iff in Hwf as [Hn Hwf]. fold k in Hwf, Hl. rewrite Hl in Hwf.
   assert (Hc : canon k) by now apply canon_normalize.
   rewrite (m_mkdir_missing s p perm Hl (below_file_dir_parent s k Hc Hwf)). cbv zeta. fold k pm.
   destruct (reg_new_present s k (mkdir_node k pm (mclock s)) pm W Hc Hl) as (q & Hq & -> & W'); auto.
@@ -212,9 +253,10 @@ Proof.
   rewrite lookup_upd, lookup_put_new, beqb_refl. reflexivity.
 Qed.
 
-Lemma sim_mkdir s t p perm : Rsim s t -> wf_op s (Mkdir p perm) = true -> sim_raw s t (Mkdir p perm).
+Lemma sim_mkdir s t p perm : Rsim s t -> wf_op_ord s (Mkdir p perm) = true -> sim_raw s t (Mkdir p perm).
 Proof.
   intros R Hwf. pose proof R as [W T N H Hs]. unfold sim_raw. cbn [m_step_raw p_step].
+  resolve_ord R Hwf Hnt. rewrite Hnt.
   set (k := normalize_path p) in *.
   destruct (lookup s k) as [f|] eqn:Hl.
   - destruct (rel_node s t k f R Hl) as (n & x & _ & Hp & _). unfold m_mkdir. fold k. rewrite Hl, Hp. split; [exact R | reflexivity].
@@ -222,7 +264,7 @@ Proof.
     pose proof (WF_mkdir s p perm W Hwf) as W'.
     destruct (mkdir_eq s p perm W Hwf Hl) as (q & Hq & Em). fold k in Em, Hq. rewrite Em in *. cbn [fst snd] in *.
     assert (Hd : pis_dir t (pparent k) = true).
-    { rewrite <- (rel_is_dir s t _ R). cbn [wf_op] in Hwf. apply andb_true_iff in Hwf as [_ Hwf]. fold k in Hwf. now rewrite Hl in Hwf. }
+    { rewrite <- (rel_is_dir s t _ R). cbn [wf_op_ord] in Hwf. apply andb_true_iff in Hwf as [_ Hwf]. fold k in Hwf. now rewrite Hl in Hwf. }
     rewrite Hd. cbn [fst snd mproj]. split; [|reflexivity].
     set (pm := Z.land perm chmod_bits) in *. set (item := length (mheap s)) in *.
     split.
@@ -317,11 +359,12 @@ Proof.
     apply heap_rel_upd; [exact H3|]. intros n x _ _. apply irel_set_kid.
 Qed.
 
-Lemma sim_mkdirall s t p perm : Rsim s t -> wf_op s (MkdirAll p perm) = true -> sim_raw s t (MkdirAll p perm).
+Lemma sim_mkdirall s t p perm : Rsim s t -> wf_op_ord s (MkdirAll p perm) = true -> sim_raw s t (MkdirAll p perm).
 Proof.
   intros R Hwf. pose proof R as [W T N H Hs]. unfold sim_raw. cbn [m_step_raw p_step].
+  resolve_ord R Hwf Hnt. rewrite Hnt.
   pose proof (WF_mkdirall s p perm W Hwf) as W'.
-  cbn [wf_op] in Hwf. apply andb_true_iff in Hwf as [Hn Hwf].
+  cbn [wf_op_ord] in Hwf. apply andb_true_iff in Hwf as [Hn Hwf].
   set (k := normalize_path p) in *. assert (Hc : canon k) by now apply canon_normalize.
   destruct (lookup s k) as [f|] eqn:Hl.
   - destruct (rel_node s t k f R Hl) as (n & x & Hgn & Hp & Hpi & Hpn & Hi).
@@ -385,9 +428,9 @@ Proof.
   - cbn. now apply handles_alloc.
 Qed.
 
-Lemma sim_open s t p : Rsim s t -> sim_raw s t (Open p).
+Lemma sim_open s t p : Rsim s t -> wf_op_ord s (Open p) = true -> sim_raw s t (Open p).
 Proof.
-  intros R. unfold sim_raw. cbn [m_step_raw p_step]. unfold m_open. set (k := normalize_path p).
+  intros R Hwf. unfold sim_raw. cbn [m_step_raw p_step]. resolve_ord R Hwf Hnt. rewrite Hnt. unfold m_open. set (k := normalize_path p).
   destruct (lookup s k) as [f|] eqn:Hl.
   - destruct (rel_node s t k f R Hl) as (n & x & _ & Hp & _). rewrite Hp. unfold popen, alloc_handle. cbn [fst snd mproj].
     split; [|now rewrite (handles_len s t R)].
@@ -398,9 +441,9 @@ Qed.
 Lemma zlen_to_nat {A} (l : list A) : Z.to_nat (zlen l) = length l.
 Proof. unfold zlen. apply Nat2Z.id. Qed.
 
-Lemma sim_stat s t p : Rsim s t -> sim_raw s t (Stat p).
+Lemma sim_stat s t p : Rsim s t -> wf_op_ord s (Stat p) = true -> sim_raw s t (Stat p).
 Proof.
-  intros R. unfold sim_raw. cbn [m_step_raw p_step]. unfold m_stat. set (k := normalize_path p).
+  intros R Hwf. unfold sim_raw. cbn [m_step_raw p_step]. resolve_ord R Hwf Hnt. rewrite Hnt. unfold m_stat. set (k := normalize_path p).
   destruct (lookup s k) as [f|] eqn:Hl.
   - destruct (rel_node s t k f R Hl) as (n & x & Hn & Hp & _ & Hx & Hi). rewrite Hn, Hx. cbn [fst snd mproj finfo_of fi_dir fi_size].
     destruct x as [pm|d pm]; cbn in Hi.
@@ -419,18 +462,18 @@ Proof.
   - now rewrite mhandles_upd.
 Qed.
 
-Lemma sim_chown s t p u g : Rsim s t -> sim_raw s t (Chown p u g).
+Lemma sim_chown s t p u g : Rsim s t -> wf_op_ord s (Chown p u g) = true -> sim_raw s t (Chown p u g).
 Proof.
-  intros R. unfold sim_raw. cbn [m_step_raw p_step]. unfold m_chown. set (k := normalize_path p).
+  intros R Hwf. unfold sim_raw. cbn [m_step_raw p_step]. resolve_ord R Hwf Hnt. rewrite Hnt. unfold m_chown. set (k := normalize_path p).
   destruct (lookup s k) as [f|] eqn:Hl.
   - destruct (rel_node s t k f R Hl) as (n & x & _ & Hp & _). rewrite Hp. cbn [fst snd mproj].
     split; [|reflexivity]. apply Rsim_core; [exact R | apply keeps_owner | reflexivity].
   - destruct (rel_none s t k R Hl) as [Hp _]. rewrite Hp. split; [exact R | reflexivity].
 Qed.
 
-Lemma sim_chtimes s t p tm : Rsim s t -> sim_raw s t (Chtimes p tm).
+Lemma sim_chtimes s t p tm : Rsim s t -> wf_op_ord s (Chtimes p tm) = true -> sim_raw s t (Chtimes p tm).
 Proof.
-  intros R. unfold sim_raw. cbn [m_step_raw p_step]. unfold m_chtimes. set (k := normalize_path p).
+  intros R Hwf. unfold sim_raw. cbn [m_step_raw p_step]. resolve_ord R Hwf Hnt. rewrite Hnt. unfold m_chtimes. set (k := normalize_path p).
   destruct (lookup s k) as [f|] eqn:Hl.
   - destruct (rel_node s t k f R Hl) as (n & x & _ & Hp & _). rewrite Hp. cbn [fst snd mproj].
     split; [|reflexivity]. apply Rsim_core; [exact R | apply keeps_mtime | reflexivity].
@@ -449,10 +492,10 @@ Proof.
   - now rewrite mhandles_upd.
 Qed.
 
-Lemma sim_chmod s t p m : Rsim s t -> wf_op s (Chmod p m) = true -> sim_raw s t (Chmod p m).
+Lemma sim_chmod s t p m : Rsim s t -> wf_op_ord s (Chmod p m) = true -> sim_raw s t (Chmod p m).
 Proof.
-  intros R Hwf. unfold sim_raw. cbn [m_step_raw p_step]. unfold m_chmod. set (k := normalize_path p).
-  cbn [wf_op] in Hwf. apply andb_true_iff in Hwf as [Hn _]. assert (Hc : canon k) by now apply canon_normalize.
+  intros R Hwf. unfold sim_raw. cbn [m_step_raw p_step]. resolve_ord R Hwf Hnt. rewrite Hnt. unfold m_chmod. set (k := normalize_path p).
+  cbn [wf_op_ord] in Hwf. apply andb_true_iff in Hwf as [Hn _]. assert (Hc : canon k) by now apply canon_normalize.
   destruct (lookup s k) as [f|] eqn:Hl.
   - destruct (rel_node s t k f R Hl) as (n & x & Hn' & Hp & _ & Hx & Hi). rewrite Hp, Hx, Hn'.
     rewrite (set_file_mode_canon s k _ f Hc Hl).
@@ -500,11 +543,11 @@ Lemma leaf_len s k n0 q g : length (mheap (upd_node (put_new s k n0) q g)) = S (
 Proof. rewrite mheap_upd_len. unfold put_new, alloc_node, set_data. cbn [mheap]. rewrite app_length. cbn. lia. Qed.
 
 (* ---------- Create ---------- *)
-Lemma sim_create s t p : Rsim s t -> wf_op s (Create p) = true -> sim_raw s t (Create p).
+Lemma sim_create s t p : Rsim s t -> wf_op_ord s (Create p) = true -> sim_raw s t (Create p).
 Proof.
   intros R Hwf. pose proof R as [W T N H Hs]. unfold sim_raw.
-  pose proof (WF_create s p W Hwf) as W'. cbn [m_step_raw p_step] in *.
-  cbn [wf_op] in Hwf. apply andb_true_iff in Hwf as [Hn Hwf].
+  pose proof (WF_create s p W Hwf) as W'. cbn [m_step_raw p_step] in *. resolve_ord R Hwf Hnt. rewrite Hnt.
+  cbn [wf_op_ord] in Hwf. apply andb_true_iff in Hwf as [Hn Hwf].
   set (k := normalize_path p) in *. assert (Hc : canon k) by now apply canon_normalize.
   unfold m_create in *. fold k in W' |- *.
   destruct (lookup s k) as [f|] eqn:Hl.
@@ -556,11 +599,11 @@ Proof.
     destruct (Z.land flag memfs_access_mask =? 0) eqn:E; [|apply andb_false_r]. apply Z.eqb_eq in E. rewrite E. cbn. now rewrite andb_false_r.
 Qed.
 
-Lemma sim_openfile s t p flag perm : Rsim s t -> wf_op s (OpenFile p flag perm) = true -> sim_raw s t (OpenFile p flag perm).
+Lemma sim_openfile s t p flag perm : Rsim s t -> wf_op_ord s (OpenFile p flag perm) = true -> sim_raw s t (OpenFile p flag perm).
 Proof.
   intros R Hwf. pose proof R as [W T N H Hs]. unfold sim_raw.
-  pose proof (WF_openfile s p flag perm W Hwf) as W'. cbn [m_step_raw p_step] in *.
-  cbn [wf_op] in Hwf. apply andb_true_iff in Hwf as [Hn Hwf]. apply andb_true_iff in Hn as [Hn Hfl].
+  pose proof (WF_openfile s p flag perm W Hwf) as W'. cbn [m_step_raw p_step] in *. resolve_ord R Hwf Hnt. rewrite Hnt.
+  cbn [wf_op_ord] in Hwf. apply andb_true_iff in Hwf as [Hn Hwf]. apply andb_true_iff in Hn as [Hn Hfl].
   destruct (flag_ok_facts flag Hfl) as (Happ & Htr & Hdead).
   set (k := normalize_path p) in *. assert (Hc : canon k) by now apply canon_normalize.
   unfold m_openfile in *. fold k in W' |- *.
@@ -675,27 +718,14 @@ End MapKeys.
 Lemma existsb_keys {A B} (g : str -> bool) (l1 : list (str * A)) (l2 : list (str * B)) :
   (forall k, alist_get k l1 = None <-> alist_get k l2 = None) ->
   existsb (fun kv => g (fst kv)) l1 = existsb (fun kv => g (fst kv)) l2.
-Proof.
-  intros Hk.
-  assert (Hx : forall {C D} (a : list (str * C)) (b : list (str * D)),
-     (forall k, alist_get k a = None <-> alist_get k b = None) ->
-     existsb (fun kv => g (fst kv)) a = true -> existsb (fun kv => g (fst kv)) b = true).
-  { intros C D a b Hab Ha. apply existsb_exists in Ha as ([k v] & Hin & Hg). cbn in Hg.
-    assert (Hka : alist_get k a <> None). { intros E. apply aget_none_keys in E. apply E. apply in_map_iff. now exists (k, v). }
-    destruct (alist_get k b) as [v'|] eqn:Eb; [|exfalso; apply Hka; now apply Hab].
-    apply existsb_exists. exists (k, v'). split; [now apply aget_in | exact Hg]. }
-  destruct (existsb (fun kv => g (fst kv)) l1) eqn:E1.
-  - symmetry. now apply (Hx _ _ l1 l2).
-  - destruct (existsb (fun kv => g (fst kv)) l2) eqn:E2; [|reflexivity].
-    rewrite (Hx _ _ l2 l1) in E1; [discriminate | intros k; symmetry; apply Hk | exact E2].
-Qed.
+Proof. apply existsb_keys'. Qed.
 
 (* ---------- Remove / RemoveAll ---------- *)
-Lemma sim_remove s t p : Rsim s t -> wf_op s (Remove p) = true -> sim_raw s t (Remove p).
+Lemma sim_remove s t p : Rsim s t -> wf_op_ord s (Remove p) = true -> sim_raw s t (Remove p).
 Proof.
   intros R Hwf. pose proof R as [W T N H Hs]. unfold sim_raw.
-  pose proof (WF_remove s p W Hwf) as W'. cbn [m_step_raw p_step] in *.
-  cbn [wf_op] in Hwf. apply andb_true_iff in Hwf as [Hn Hwf]. apply andb_true_iff in Hn as [Hn Hroot].
+  pose proof (WF_remove s p W Hwf) as W'. cbn [m_step_raw p_step] in *. resolve_ord R Hwf Hnt. rewrite Hnt.
+  cbn [wf_op_ord] in Hwf. apply andb_true_iff in Hwf as [Hn Hwf]. apply andb_true_iff in Hn as [Hn Hroot].
   set (k := normalize_path p) in *. apply negb_true_iff in Hroot.
   unfold m_remove in *. fold k in W' |- *.
   destruct (lookup s k) as [f|] eqn:Hl.
@@ -721,11 +751,11 @@ Proof.
   - destruct (rel_none s t k R Hl) as [_ Hx]. rewrite Hx. split; [exact R | reflexivity].
 Qed.
 
-Lemma sim_removeall s t p : Rsim s t -> wf_op s (RemoveAll p) = true -> sim_raw s t (RemoveAll p).
+Lemma sim_removeall s t p : Rsim s t -> wf_op_ord s (RemoveAll p) = true -> sim_raw s t (RemoveAll p).
 Proof.
   intros R Hwf. pose proof R as [W T N H Hs]. unfold sim_raw.
-  pose proof (WF_removeall s p W Hwf) as W'. cbn [m_step_raw p_step] in *.
-  cbn [wf_op] in Hwf. apply andb_true_iff in Hwf as [Hn Hwf]. apply andb_true_iff in Hn as [Hn Hroot].
+  pose proof (WF_removeall s p W Hwf) as W'. cbn [m_step_raw p_step] in *. resolve_ord R Hwf Hnt. rewrite Hnt.
+  cbn [wf_op_ord] in Hwf. apply andb_true_iff in Hwf as [Hn Hwf]. apply andb_true_iff in Hn as [Hn Hroot].
   set (k := normalize_path p) in *. assert (Hc : canon k) by now apply canon_normalize. apply negb_true_iff, beqb_neq in Hroot.
   unfold m_removeall in *. fold k in W' |- *.
   assert (Hp : forall k', plookup (set_tree t (filter (fun kv => negb (patbelow k (fst kv))) (ptree t))) k' =
@@ -762,12 +792,23 @@ Qed.
 Lemma atbelow_prefix a k : atbelow a k -> prefixb a k = true.
 Proof. intros [->|H]; [apply prefixb_spec; exists []; now rewrite app_nil_r | now apply below_prefix]. Qed.
 
-Lemma sim_rename s t p q : Rsim s t -> wf_op s (Rename p q) = true -> sim_raw s t (Rename p q).
+Lemma sim_rename s t p q : Rsim s t -> wf_op_ord s (Rename p q) = true -> sim_raw s t (Rename p q).
 Proof.
   intros R Hwf. pose proof R as [W T N H Hs]. unfold sim_raw. cbn [m_step_raw p_step].
+  resolve_ord R Hwf Hnt. destruct Hnt as (Hn1 & Hn2).
+  assert (Hco : canon (normalize_path p) /\ canon (normalize_path q)).
+  { cbn [wf_op_ord] in Hwf. apply andb_true_iff in Hwf as [Hn _]. apply andb_true_iff in Hn as [Hn _].
+    apply andb_true_iff in Hn as [Hnp Hnq]. split; now apply canon_normalize. }
+  destruct Hco as [Hco Hcn].
   set (old := normalize_path p) in *. set (new := normalize_path q) in *.
+  rewrite Hn1, <- (rel_is_dir s t _ R). change (pparent old) with (par old).
   destruct (lookup s old) as [f|] eqn:Hl.
-  2:{ destruct (rel_none s t old R Hl) as [Hp _]. rewrite Hp. unfold m_rename. fold old. rewrite Hl. split; [exact R | reflexivity]. }
+  2:{ (* a missing source: nothing changes; ENOTDIR iff its directory is there and the target passes through a regular file *)
+      destruct (rel_none s t old R Hl) as [Hp _]. rewrite Hp, <- (rel_through s t new R).
+      rewrite (m_rename_missing s p q W Hco Hcn Hl). fold old new.
+      destruct (is_dir_at s (par old)); cbn [negb andb]; [|split; [exact R | reflexivity]].
+      destruct (through_file s new); split; try exact R; reflexivity. }
+  destruct Hn2 as [Hdo Hnn]; [congruence|]. rewrite Hdo, Hnn. cbn [negb].
   destruct (rel_node s t old f R Hl) as (fn & fx & _ & Hp & _). rewrite Hp.
   destruct (beqb old new) eqn:Eon.
   { unfold m_rename. fold old new. rewrite Hl, Eon. split; [exact R | reflexivity]. }
@@ -947,7 +988,7 @@ Proof.
 Qed.
 
 Ltac hop_start R Hwf Hw Hok h Hh :=
-  unfold wf_op_simx in Hwf; apply andb_true_iff in Hwf as [Hw Hok]; cbn [wf_op] in Hw;
+  unfold wf_op_simx in Hwf; apply andb_true_iff in Hwf as [Hw Hok]; rewrite wf_op_handle in Hw by discriminate; cbn [wf_op_ord] in Hw;
   unfold sim_raw; cbn [m_step_raw p_step]; unfold m_hop;
   match goal with |- context [nth_error (mhandles ?s) ?i] =>
     destruct (nth_error (mhandles s) i) as [h|] eqn:Hh;
@@ -1205,10 +1246,34 @@ Proof.
     destruct ((0 <? n) && Nat.eqb (length M) 0); destruct nm; reflexivity.
 Qed.
 
+(* creating below a regular file: refused on both sides, nothing changes *)
+Lemma below_spec_step s t o : Rsim s t -> wf_below s o = true -> p_step t o = (t, PFail CNotDir).
+Proof.
+  intros R Hb. pose proof (rs_wf _ _ R) as W.
+  destruct o; cbn [wf_below] in Hb; try discriminate Hb; cbn [p_step].
+  - apply andb_true_iff in Hb as [_ Ht]. now rewrite <- (rel_through s t _ R), Ht.
+  - apply andb_true_iff in Hb as [_ Ht]. now rewrite <- (rel_through s t _ R), Ht.
+  - apply andb_true_iff in Hb as [_ Ht]. now rewrite <- (rel_through s t _ R), Ht.
+  - apply andb_true_iff in Hb as [_ Ht]. now rewrite <- (rel_through s t _ R), Ht.
+  - apply andb_true_iff in Hb as [_ Hb].
+    destruct (kind_at s (normalize_path p)) as [isd|] eqn:Hk; [|discriminate]. apply andb_true_iff in Hb as [_ Ht].
+    apply kind_at_lookup in Hk as [f Hl].
+    rewrite <- !(rel_through s t _ R), <- (rel_is_dir s t _ R), Ht.
+    change (pparent (normalize_path p)) with (par (normalize_path p)).
+    now rewrite (WF_not_through_existing s _ f W Hl), (WF_parent_dir s _ f W Hl).
+Qed.
+
+Lemma sim_below s t o : Rsim s t -> wf_below s o = true -> sim_raw s t o.
+Proof.
+  intros R Hb. unfold sim_raw. rewrite (below_raw s o (rs_wf _ _ R) Hb), (below_spec_step s t o R Hb).
+  split; [exact R | reflexivity].
+Qed.
+
 (* ---------- every well-formed call ---------- *)
 Theorem sim_step_raw s t o : Rsim s t -> wf_op_simx s o = true -> sim_raw s t o.
 Proof.
-  intros R Hwf. assert (Hw : wf_op s o = true) by (unfold wf_op_simx in Hwf; now apply andb_true_iff in Hwf as [Hw _]).
+  intros R Hwf. assert (Hw0 : wf_op s o = true) by (unfold wf_op_simx in Hwf; now apply andb_true_iff in Hwf as [Hw _]).
+  apply wf_op_cases in Hw0 as [Hw | Hb]; [|now apply sim_below].
   destruct o.
   - now apply sim_create.
   - now apply sim_mkdir.
